@@ -37,6 +37,14 @@ Theorem C17_unknown : forall reg hist tpl_bytes h tid es,
 Proof. exact C17_unknown_lemma. Qed.
 Print Assumptions C17_unknown.
 
+(* strict mode's exact outcome on such a template set, for any table: the "unknown element"
+   error, and the key's entry deleted *)
+Theorem C17_strict_rejects_exact : forall reg tm bytes h tid es,
+  spec_template Keep reg bytes = Some (h, tid, es) -> has_unknown reg bytes = true ->
+  decode_packet Strict reg tm bytes = (Err ErrUnknownIE, tm_delete tm (wire_obs bytes) (wire_tid bytes)).
+Proof. exact strict_rejects_exact. Qed.
+Print Assumptions C17_strict_rejects_exact.
+
 (* keep: a delivered data message's records are the values of field extents tiling the set body
    (C03), and every field whose element is an octet array - every unknown element is one - is
    delivered as an octet array holding exactly the bytes of its extent (fixed length: the
